@@ -41,10 +41,10 @@ pub proof fn lem_step_%(n)s(value: %(n)s, i: int)
     return t
 
 
-def fn_item(name, bits):
+def fn_item(name, bits, file="postcard/src/varint.rs", within=None, qual="postcard::varint::", oblp=("C02.V.varint.varint_", "C12.V.varint.len_")):
     k = (bits + 6) // 7
     return dict(
-        kind="fn", file="postcard/src/varint.rs", name="varint_" + name, qual="postcard::varint::varint_" + name,
+        kind="fn", file=file, within=within, name="varint_" + name, qual=qual + "varint_" + name,
         expect_loops=1,
         rewrites=[
             # D3
@@ -53,8 +53,8 @@ def fn_item(name, bits):
             (r"debug_assert_eq!\(value, 0\);", "", 1, 1),
         ],
         sig="""    ensures
-        r@ == enc(n as nat),   // @obl:C02.V.varint.varint_%(n)s
-        r@.len() <= %(k)d,     // @obl:C12.V.varint.len_%(n)s""" % {"n": name, "k": k},
+        r@ == enc(n as nat),   // @obl:%(o1)s%(n)s
+        r@.len() <= %(k)d,     // @obl:%(o2)s%(n)s""" % {"n": name, "k": k, "o1": oblp[0], "o2": oblp[1]},
         loops={0: """        invariant
             enc(n as nat) =~= out@.subrange(0, i as int) + enc(value as nat),
             value as nat <= bound_%(n)s(i as int),
@@ -73,7 +73,7 @@ def fn_item(name, bits):
             assert(out@.subrange(0, i as int + 1) =~= pre_out.subrange(0, i as int) + seq![out@[i as int]]);
         }"""),
         ],
-        obls=["C02.V.varint.varint_%s" % name],
+        obls=[oblp[0] + name],
     )
 
 
